@@ -176,8 +176,20 @@ def run(F, rep):
             rep.check(got == want[g.name], 'C17.O1', 'definition|' + g.name, g.where(), '%s() is true for %s, expected %s' % (g.name, sorted(got), sorted(want[g.name])), 'true for %s' % sorted(got))
         else:
             rep.fail('C17.O1', 'direct|%s' % g.short.split('::')[-1], g.where(refs[0]), '%s compares the model type with %s itself instead of using modelHasOdes()/modelHasNlas(): the other kinds that have ODEs/NLA systems are treated differently here than in the sibling emitters' % (g.short, sorted({x['n'] for x in refs})))
+    for nm_, w_ in want.items():
+        gs_ = [g for g in F.funcs.values() if g.name == nm_ and g.file.endswith('/generator.cpp')]
+        if gs_ and not any(x.get('k') == 'Ref' and x.get('dk') == 'enumc' and (x.get('q') or '').startswith('libcellml::AnalyserModel::Type::') for x in gs_[0].walk()):
+            n_o += 1
+            rep.fail('C17.O1', 'definition|' + nm_, gs_[0].where(), '%s() no longer derives its answer from the type of the model (%s): it now returns `%s`, which differs from the model type when, e.g., every state is an external variable (an ODE model without states)'
+                     % (nm_, sorted(w_), '; '.join(render(r['c'][0])[:50] for r in gs_[0].walk() if r.get('k') == 'Return' and r.get('c'))))
     if n_o < 2:
         raise AnalysisBroken('C17.O1: modelHasOdes/modelHasNlas vanished')
+    rep.rule('C17.M1', 'Generator::setModel / setProfile store what they are given, whatever it is: the assignment of the member is unconditional (setModel(nullptr) must clear the model, otherwise "no model -> empty code" is false for a reused generator)')
+    for nm_, fld_ in (('setModel', 'mModel'), ('setProfile', 'mProfile')):
+        g_ = F.fn1('libcellml::Generator::' + nm_)
+        asg_ = [a for a in g_.walk() if ((a.get('k') == 'Call' and a.get('opc') == '=') or (a.get('k') == 'Bin' and a.get('op') == '=')) and a.get('c') and a['c'][0].get('k') == 'Member' and a['c'][0].get('n') == fld_]
+        from engines import enclosing_conditions as _ec17
+        rep.check(bool(asg_) and any(not _ec17(g_, a) for a in asg_), 'C17.M1', nm_, g_.where(), '%s assigns %s only when %s' % (nm_, fld_, [render(c_)[:40] for a in asg_ for c_, b_, s_ in _ec17(g_, a)]), 'unconditional assignment')
 
     # ------------------------------------------------------------------ B: no method with an empty body
     rep.rule('C17.B1', 'every method the generator emits gets its body through generateMethodBodyCode(), which substitutes the profile\'s empty-method statement (`pass` in Python) when nothing was generated: '
